@@ -47,6 +47,34 @@ abbrev MapEnv := String → TMapper
 
 def noMappers : MapEnv := fun _ => .none
 
+/-- the mapper attributes a class statement and its parent classes declare (`none` = the
+    attribute is not declared there; a declared `{}` is `some (.rename [])`) -/
+structure MapperDecl where
+  ser : Option TMapper := none          -- `_serialization_mapper` in the class body
+  deser : Option TMapper := none        -- `_deserialization_mapper` in the class body
+  baseSer : Option TMapper := none      -- `_serialization_mapper` of a parent class (an inherited attribute)
+  baseDeser : Option TMapper := none    -- `_deserialization_mapper` of a parent class
+
+/-- `getattr(cls, "_deserialization_mapper", getattr(cls, "_serialization_mapper", {}))`, the one
+    expression `_is_mapper_simple` (eligibility) and `get_flat_resolved_mapper` (the key table of
+    the trusted path) both evaluate: the deserialization mapper when one is declared (the class's
+    own shadows a parent's, as attribute lookup does), else the serialization mapper, else nothing.
+    The regular path takes the same slot per class (`deserialization_mapper if … is not None else
+    serialization_mapper`) but CHAINS the parents' mappers with the class's own. -/
+def MapperDecl.resolved (d : MapperDecl) : TMapper :=
+  match d.deser <|> d.baseDeser with
+  | some m => m
+  | none => (d.ser <|> d.baseSer).getD .none
+
+/-- the parent classes' mapper is shadowed for the trusted path and chained by the regular path -/
+def MapperDecl.chained (d : MapperDecl) : Bool :=
+  (d.ser.isSome || d.deser.isSome) && (d.baseSer.isSome || d.baseDeser.isSome)
+
+def mapEnvOf (tbl : List (String × MapperDecl)) : MapEnv :=
+  fun n => match tbl.find? (fun p => p.1 == n) with
+    | some p => p.2.resolved
+    | none => .none
+
 def TMapper.isComplex : TMapper → Bool
   | .complex _ => true
   | _ => false
